@@ -821,6 +821,9 @@ impl<'t, 'c> Gen<'t, 'c> {
             self.no_calls -= 1;
         }
         let next_names = self.t.chance(1, 3);
+        // now and then a bound is written in parentheses (a keyword may follow the closing parenthesis without a blank)
+        let to = if self.t.chance(1, 6) { Expr::Paren(Box::new(to)) } else { to };
+        let from = if self.t.chance(1, 8) { Expr::Paren(Box::new(from)) } else { from };
         Stmt::For { var, from, to, step, body, next_names }
     }
 
